@@ -1,9 +1,10 @@
 CONSTANTS
   Validators = TRUE
-  DEV_AccUnknownTmpNoReturn = TRUE
-  DEV_NoteCallBadTopicPanics = TRUE
-  DEV_DelTopicBadNamePanics = TRUE
-  DEV_LeaveOboSilent = TRUE
+  DEV_AccUnknownTmpNoReturn = FALSE
+  DEV_NoteCallBadTopicPanics = FALSE
+  DEV_DelTopicBadNamePanics = FALSE
+  TrackTok = TRUE
+  DEV_LeaveOboSilent = FALSE
 INIT Init
 NEXT Next
 CHECK_DEADLOCK FALSE
